@@ -4,6 +4,7 @@ mod configs;
 mod guardmem;
 mod props;
 mod rig;
+mod special;
 use hvcore::{drive, monalloc, rigapi, util};
 
 #[global_allocator]
